@@ -41,8 +41,31 @@ def runOp (w : W Unit) (src : Source) (rest : List String) : W Unit × String :=
   let r := w.run (oracle k c) src
   (r.1, showW r.1 (some r.2) (text.map fun t => (simulations t).length))
 
+/-- engine that records what `do_run` hands to each simulation: the call-local fields and, read from the text, the user
+    numbers of its SELECTED_OUTPUT and USER_PUNCH blocks -/
+def tracer : Engine (List (CallLocal × List (Option Nat) × List (Option Nat))) where
+  simStep cl e t := ⟨e ++ [(cl, keywordNumbers Gen.Keywords.keySelectedOutput t, keywordNumbers Gen.Keywords.keyUserPunch t)], [], 0, 0, 0⟩
+  components _ := []
+  dump _ := ""
+  fresh := []
+  empty := []
+
+def showNums (ns : List (Option Nat)) : String :=
+  ",".intercalate (ns.map fun n => match n with | some k => toString k | none => "?")
+
+/-- `plan <hex>`: one error-free call on a loaded object; "K <simulation counter after the call> | sim=<i> force=<0|1> so=… up=… | …" -/
+def plan (text : Bytes) : String :=
+  let w : W (List (CallLocal × List (Option Nat) × List (Option Nat))) := { dbLoaded := true, engine := [] }
+  let r := (w.run tracer (.str text)).1
+  s!"K {r.simulation}" ++ String.join (r.engine.map fun (cl, so, up) =>
+    s!" | sim={cl.simulation} force={b2s cl.forceHeadings} so={showNums so} up={showNums up}")
+
 def feed (w : W Unit) (line : String) : W Unit × Option String :=
   match words line with
+  | ["plan", h] =>
+    match bytesOf h with
+    | some t => (w, some (plan t))
+    | none => (w, some "bad-hex")
   | ["new"] => let w : W Unit := { engine := () }; (w, some (showW w none none))
   | ["load"] => let r := w.load (oracle 0 0) true; (r.1, some (showW r.1 (some r.2) none))
   | ["unload"] => let r := w.load (oracle 0 0) false; (r.1, some (showW r.1 (some r.2) none))
